@@ -24,6 +24,9 @@ func c10Gen(g *G) {
 	g.Emit("c10.run o,o,o g0;w1;u;a0;j;close;g1;w2;a1;j;close;u;g2;w3;a2", "reconnect")
 	g.Emit("c10.run o,o,o,o K600;g0;w1;a0;j;g1;w2;T1;j;g2;w3;a2;j;g3;w4;u;a3", "server-clock-ahead")
 	g.Emit("c10.run o,o,o K86400;g0+1;w2;c(T0,a1);j;g2;w3;U2;j;g0;w4;a0", "server-clock-ahead")
+	// a long-lived server session: its seq_no has passed 2^31 (negative as a signed 32-bit number) and 2^32 - 1
+	g.Emit("c10.run o,o Q1073741823;g0;w1;u;a0;c(u,x);j;g1;w2;n5;a1", "server-seqno-beyond-int32")
+	g.Emit("c10.run o Q2147483646;g0;w1;u;a0", "server-seqno-beyond-int32")
 	n := g.N(60, 1500)
 	for i := 0; i < n; i++ {
 		if r.Intn(3) == 0 {
@@ -77,6 +80,9 @@ func c10Gen(g *G) {
 			}
 			if r.Intn(4) == 0 {
 				plan = append([]string{fmt.Sprintf("K%d", 60+r.Intn(100000))}, plan...)
+			}
+			if r.Intn(4) == 0 {
+				plan = append([]string{fmt.Sprintf("Q%d", []int{1073741820, 1073741823, 1073741824, 2147483640}[r.Intn(4)])}, plan...)
 			}
 			g.Emit(fmt.Sprintf("c10.run %s %s", strings.Join(kinds, ","), strings.Join(plan, ";")), "yield-two-waves", fmt.Sprintf("callers=%d", k1+k2))
 			continue
